@@ -1,26 +1,28 @@
 (* ScannerLineExact: the EXACT line of every token (proofs; the few definitions are specification-side).
 
-   Since /repo 914ba97 read_escaped_bytes counts the line breaks it consumes, so the scanner's line counter can be
-   compared with the number of newline bytes it has passed.  Result (token_line_exact):
+   Since /repo 914ba97 (line breaks among the characters of a \x / \u / \U escape) and e81033c (the character consumed
+   right after a lone `\` or after a `$` not followed by `{`) EVERY line break the scanner consumes is counted, so the
+   line counter is a function of the offset:
 
-       for every source `src` (no LF directly followed by a UTF-8 continuation byte - true of every valid UTF-8
-       string, i.e. of every Rust `String`), for every token t of `scan_all src`, with e = the offset `current`
-       right after t was produced (the END of its lexeme / of the text the error token consumed):
+       scanner_line_exact   every reachable scanner state:  s_line st = 1 + (newline bytes of src before s_pos st)
 
-           tline t + (number of SWALLOWING error tokens up to and including t)
-             = 1 + (number of newline bytes of src before e).
+   and so is the line of every token (token_line_exact): for every source `src` (no LF directly followed by a UTF-8
+   continuation byte - true of every valid UTF-8 string, i.e. of every Rust `String`: valid_nl_clean), for every token t
+   of `scan_all src`, with e = the offset `current` right after t was produced (the END of its lexeme / of the text
+   the error token consumed):
 
-   A swallowing error token is one of the two places left in scanner.rs where a character is consumed without
-   being looked at: the character after `\` when it is not an escape letter ("Invalid escape sequence.") and the
-   character after `$` when it is not `{` ("Expected '{' in string interpolation.") - when that character is a raw
-   line break (`swallowb`).  The token itself then still carries the line of the `\` / `$` (arguably right), but
-   every LATER token of the compilation is one line short: line_exact_refuted_escape / line_exact_refuted_dollar
-   (witnesses confirmed on the real scanner, see notes/Scanner-newline.md).  For every token that has no such error
-   token before it the equation is the plain one (token_line_exact_clean), in particular for every token up to and
-   including the first Error token of any kind (token_line_exact_first_error), hence - the parser stops at the first
-   Error token: ParserInv.parse_error_before_scan_error - for the FIRST compile error of every source, with no side
-   condition (compile_error_line_exact_first): its line is the line of the offset where the reported token ends, or,
-   for a swallowing Error token, the line on which the swallowed break stands. *)
+           tline t = 1 + (number of newline bytes of src before `token_offset src (t, e)`)
+
+   where token_offset is e for EVERY token - lexemes, strings, interpolation parts, Eof (e = length src), Error tokens -
+   with one exception: the two Error tokens that scanner.rs builds right after consuming one character unseen
+   ("Invalid escape sequence." after `\`, "Expected '{' in string interpolation." after `$`) when that character is a
+   raw line break: there the token is built BEFORE the break is counted (e81033c keeps the message on the line of its
+   `\` / `$`), so its offset is e - 1, the offset OF that line break (`late_breakb`).  No deficit term is left: the old
+   form (tline t + swallowing error tokens so far = ...) was needed while those two exits did not count the break
+   (finding literal_error_swallows_newline, fixed by e81033c; witnesses line_exact_backslash_fixed /
+   line_exact_dollar_fixed below now evaluate to the right lines).
+   Through the parser (ParserInv): the line of the first compile error is the line of such an offset
+   (compile_error_line_exact). *)
 From Coq Require Import Strings.Byte Strings.String.
 From Coq Require Import List NArith Bool Arith Lia.
 From YV Require Import Utf8 Utf8Proofs NumText Scanner ScannerProofs Parser ParseRun Lines LinesProofs.
@@ -54,22 +56,23 @@ Definition msg_invalid_escape : list byte := bs "Invalid escape sequence.".
 Definition msg_expected_brace : list byte := bs "Expected '{' in string interpolation.".
 
 (* an Error token made right after blindly consuming one character *)
-Definition swallow_msg (t : token) : bool :=
+Definition blind_msg (t : token) : bool :=
   tkind_eqb (tk t) TError &&
   (bytes_eqb (tsource t) msg_invalid_escape || bytes_eqb (tsource t) msg_expected_brace).
 
-(* ... and that character (the last byte before `e`) is a line break *)
 Definition byte_before_is_nl (src : list byte) (e : nat) : bool :=
   match e with
   | O => false
   | S p => match nth_error src p with Some b => is_nl b | None => false end
   end.
 
-Definition swallowb (src : list byte) (te : token * nat) : bool :=
-  swallow_msg (fst te) && byte_before_is_nl src (snd te).
+(* ... and that character (the last byte before `e`) is a line break: it is counted AFTER the token was built *)
+Definition late_breakb (src : list byte) (te : token * nat) : bool :=
+  blind_msg (fst te) && byte_before_is_nl src (snd te).
 
-Definition swallowed (src : list byte) (l : list (token * nat)) : N :=
-  N.of_nat (List.length (filter (swallowb src) l)).
+(* the offset whose line a token carries: where it ends - for a late_breakb token, the line break it ends with *)
+Definition token_offset (src : list byte) (te : token * nat) : nat :=
+  if late_breakb src te then (snd te - 1)%nat else snd te.
 
 (* no LF is directly followed by a continuation byte (0x80..0xBF) - every valid UTF-8 string: valid_nl_clean *)
 Fixpoint nl_cleanb (l : list byte) : bool :=
@@ -278,30 +281,25 @@ Proof.
   apply chr_is_eq in E. subst c. rewrite cnl_cons. cbn [chr_is]. rewrite Hb. lia.
 Qed.
 
-(* the deficit of a step that consumed the characters m and produced t *)
-Definition sw (t : token) (m : list chr) : N := if swallow_msg t && last_nl m then 1 else 0.
+(* 1 when the step that consumed the characters m built the token t BEFORE counting its last line break *)
+Definition sw (t : token) (m : list chr) : N := if blind_msg t && last_nl m then 1 else 0.
 
-(* a string body: the token carries the final line; the line grew by exactly the newline characters consumed,
-   except for one when the token is a swallowing error *)
+(* a string body: the line grows by exactly the newline characters consumed; the token carries the final line,
+   except for a late-break Error token, which carries one less *)
 Definition str_exact (line : N) (cs : list chr) (t : token) (st' : sstate) : Prop :=
-  exists m, cs = m ++ s_rest st' /\ tline t = s_line st' /\ s_line st' + sw t m = line + cnl m /\
-            (swallow_msg t = true -> m <> []).
+  exists m, cs = m ++ s_rest st' /\ s_line st' = line + cnl m /\ tline t + sw t m = s_line st' /\
+            (blind_msg t = true -> m <> []).
 
-Lemma swallow_msg_str : forall line l, swallow_msg (mkToken TStr line l) = false.
+Lemma blind_msg_str : forall line l, blind_msg (mkToken TStr line l) = false.
 Proof. reflexivity. Qed.
-Lemma swallow_msg_interp : forall line l, swallow_msg (mkToken TInterpolation line l) = false.
+Lemma blind_msg_interp : forall line l, blind_msg (mkToken TInterpolation line l) = false.
 Proof. reflexivity. Qed.
-
-Ltac str_leaf m0 :=
-  exists m0; cbn [s_rest s_line tline error_token app];
-  split; [reflexivity|]; split; [reflexivity|]; split;
-  [unfold sw; cbn [last_nl]; rewrite ?cnl_cons, ?cnl_nil; try reflexivity | intros _; discriminate].
 
 Lemma string_loop_exact : forall cs skip buf err pos line parens,
   let '(t, st') := string_loop cs skip buf err pos line parens in str_exact line cs t st'.
 Proof.
   induction cs as [|c r IH]; intros skip buf err pos line parens; cbn [string_loop].
-  - exists []. cbn. repeat split; try reflexivity. intros Q; discriminate Q.
+  - exists []. cbn. repeat split; first [reflexivity | lia | (intros Q; discriminate Q)].
   - (* what a recursive call on r gives for c :: r, when c adds `dl` to the line *)
     assert (Hrec : forall skip' buf' err' pos' (dl : N),
               dl = nlc c ->
@@ -309,68 +307,67 @@ Proof.
               str_exact line (c :: r) t st').
     { intros skip' buf' err' pos' dl Hdl. specialize (IH skip' buf' err' pos' (line + dl) parens).
       destruct (string_loop r skip' buf' err' pos' (line + dl) parens) as [t st'].
-      destruct IH as [m [Hm [Ht [Hl Hne]]]]. exists (c :: m).
-      split; [rewrite Hm at 1; reflexivity|]. split; [exact Ht|]. split; [|intros _; discriminate].
-      rewrite cnl_cons. fold (nlc c). rewrite <- Hdl.
-      assert (Hsw : sw t (c :: m) = sw t m).
-      { unfold sw. destruct (swallow_msg t) eqn:Es; [|reflexivity]. cbn [andb].
-        rewrite last_nl_cons; [reflexivity|apply Hne; reflexivity]. }
-      rewrite Hsw. lia. }
+      destruct IH as [m [Hm [Hl [Ht Hne]]]]. exists (c :: m).
+      split; [rewrite Hm at 1; reflexivity|]. split; [|split; [|intros _; discriminate]].
+      - rewrite cnl_cons. fold (nlc c). rewrite <- Hdl. lia.
+      - assert (Hsw : sw t (c :: m) = sw t m).
+        { unfold sw. destruct (blind_msg t) eqn:Es; [|reflexivity]. cbn [andb].
+          rewrite last_nl_cons; [reflexivity|apply Hne; reflexivity]. }
+        rewrite Hsw. exact Ht. }
+    (* a leaf that consumed the characters m0 *)
     destruct skip as [|k].
     + destruct (chr_is c """") eqn:Eq.
       { assert (En : chr_is c "010" = false) by (apply chr_is_eq in Eq; subst c; reflexivity).
         destruct err as [msg|].
         - exists [c]. cbn [s_rest s_line tline error_token app].
-          split; [reflexivity|]. split; [reflexivity|]. split.
-          + unfold sw. cbn [last_nl]. rewrite En, andb_false_r, cnl_cons, En. cbn. lia.
-          + intros _; discriminate.
+          split; [reflexivity|]. split; [rewrite cnl_cons, En; cbn; lia|]. split; [|intros _; discriminate].
+          unfold sw. cbn [last_nl]. rewrite En, andb_false_r. lia.
         - exists [c]. cbn [s_rest s_line tline app].
-          split; [reflexivity|]. split; [reflexivity|]. split.
-          + unfold sw. rewrite swallow_msg_str, cnl_cons, En. cbn. lia.
-          + intros _; discriminate. }
+          split; [reflexivity|]. split; [rewrite cnl_cons, En; cbn; lia|]. split; [|intros _; discriminate].
+          unfold sw. rewrite blind_msg_str. cbn [andb]. lia. }
       destruct (chr_is c "$") eqn:Ed.
       { assert (En : chr_is c "010" = false) by (apply chr_is_eq in Ed; subst c; reflexivity).
         destruct r as [|c2 r2].
         - exists [c]. cbn [s_rest s_line tline error_token app].
-          split; [reflexivity|]. split; [reflexivity|]. split.
-          + unfold sw. cbn [last_nl]. rewrite En, andb_false_r, cnl_cons, En. cbn. lia.
-          + intros _; discriminate.
+          split; [reflexivity|]. split; [rewrite cnl_cons, En; cbn; lia|]. split; [|intros _; discriminate].
+          unfold sw. cbn [last_nl]. rewrite En, andb_false_r. lia.
         - cbv zeta. destruct (negb (chr_is c2 "{")) eqn:Eb.
-          + (* the swallowing case: c2 is consumed unseen *)
+          + (* c2 is consumed unseen; a line break is counted after the token was built (e81033c) *)
             exists [c; c2]. cbn [s_rest s_line tline error_token app].
-            split; [reflexivity|]. split; [reflexivity|]. split; [|intros _; discriminate].
-            unfold sw. cbn [last_nl]. rewrite !cnl_cons, En.
-            replace (swallow_msg (mkToken TError line (bs "Expected '{' in string interpolation."))) with true by reflexivity.
-            cbn [andb]. destruct (chr_is c2 "010"); cbn; lia.
+            split; [reflexivity|]. split; [|split; [|intros _; discriminate]].
+            * rewrite !cnl_cons, En. destruct (chr_is c2 "010"); cbn; lia.
+            * unfold sw. cbn [last_nl].
+              replace (blind_msg (mkToken TError line (bs "Expected '{' in string interpolation."))) with true by reflexivity.
+              cbn [andb]. destruct (chr_is c2 "010"); cbn; lia.
           + assert (En2 : chr_is c2 "010" = false).
             { apply negb_false_iff in Eb. apply chr_is_eq in Eb. subst c2. reflexivity. }
             destruct (Nat.leb INTERPOLATION_DEPTH_MAX (List.length parens)).
             * exists [c; c2]. cbn [s_rest s_line tline error_token app].
-              split; [reflexivity|]. split; [reflexivity|]. split; [|intros _; discriminate].
-              unfold sw. cbn [last_nl]. rewrite En2, andb_false_r, !cnl_cons, En, En2. cbn. lia.
+              split; [reflexivity|]. split; [rewrite !cnl_cons, En, En2; cbn; lia|]. split; [|intros _; discriminate].
+              unfold sw. cbn [last_nl]. rewrite En2, andb_false_r. lia.
             * exists [c; c2]. cbn [s_rest s_line tline app].
-              split; [reflexivity|]. split; [reflexivity|]. split; [|intros _; discriminate].
-              unfold sw. rewrite swallow_msg_interp, !cnl_cons, En, En2. cbn. lia. }
+              split; [reflexivity|]. split; [rewrite !cnl_cons, En, En2; cbn; lia|]. split; [|intros _; discriminate].
+              unfold sw. rewrite blind_msg_interp. cbn [andb]. lia. }
       destruct (chr_is c "\") eqn:Eb.
       { assert (En : chr_is c "010" = false) by (apply chr_is_eq in Eb; subst c; reflexivity).
         assert (Hn0 : 0 = nlc c) by (unfold nlc; rewrite En; reflexivity).
         destruct r as [|c2 r2].
         - exists [c]. cbn [s_rest s_line tline error_token app].
-          split; [reflexivity|]. split; [reflexivity|]. split.
-          + unfold sw. cbn [last_nl]. rewrite En, andb_false_r, cnl_cons, En. cbn. lia.
-          + intros _; discriminate.
+          split; [reflexivity|]. split; [rewrite cnl_cons, En; cbn; lia|]. split; [|intros _; discriminate].
+          unfold sw. cbn [last_nl]. rewrite En, andb_false_r. lia.
         - destruct (simple_escape c2).
           { pose proof (Hrec 1%nat (b :: buf) err (pos + 1)%nat 0 Hn0) as H. rewrite N.add_0_r in H. exact H. }
           destruct (hex_escape c2) as [[n msg]|].
           { destruct (read_escaped_bytes n r2) as [[l|] k].
             - pose proof (Hrec (1 + k)%nat (rev_append l buf) err (pos + 1)%nat 0 Hn0) as H. rewrite N.add_0_r in H. exact H.
             - pose proof (Hrec (1 + k)%nat buf (Some msg) (pos + 1)%nat 0 Hn0) as H. rewrite N.add_0_r in H. exact H. }
-          (* the swallowing case: c2 is consumed unseen *)
+          (* c2 is consumed unseen; a line break is counted after the token was built (e81033c) *)
           exists [c; c2]. cbn [s_rest s_line tline error_token app].
-          split; [reflexivity|]. split; [reflexivity|]. split; [|intros _; discriminate].
-          unfold sw. cbn [last_nl]. rewrite !cnl_cons, En.
-          replace (swallow_msg (mkToken TError line (bs "Invalid escape sequence."))) with true by reflexivity.
-          cbn [andb]. destruct (chr_is c2 "010"); cbn; lia. }
+          split; [reflexivity|]. split; [|split; [|intros _; discriminate]].
+          + rewrite !cnl_cons, En. destruct (chr_is c2 "010"); cbn; lia.
+          + unfold sw. cbn [last_nl].
+            replace (blind_msg (mkToken TError line (bs "Invalid escape sequence."))) with true by reflexivity.
+            cbn [andb]. destruct (chr_is c2 "010"); cbn; lia. }
       destruct (chr_is c "010") eqn:En.
       { assert (Hn1 : 1 = nlc c) by (unfold nlc; rewrite En; reflexivity).
         exact (Hrec 0%nat ("010"%byte :: buf) err (pos + 1)%nat 1 Hn1). }
@@ -393,15 +390,15 @@ Proof.
     destruct (check_keyword_cases a b c d) as [Q|Q]; rewrite Q; reflexivity end.
 Qed.
 
-Lemma sw_ident : forall lex line l, swallow_msg (mkToken (identifier_type lex) line l) = false.
-Proof. intros. unfold swallow_msg. cbn [tk]. rewrite identifier_type_not_error. reflexivity. Qed.
+Lemma sw_ident : forall lex line l, blind_msg (mkToken (identifier_type lex) line l) = false.
+Proof. intros. unfold blind_msg. cbn [tk]. rewrite identifier_type_not_error. reflexivity. Qed.
 
-Lemma sw_unexpected : forall line c, swallow_msg (mkToken TError line (unexpected_msg c)) = false.
+Lemma sw_unexpected : forall line c, blind_msg (mkToken TError line (unexpected_msg c)) = false.
 Proof. intros. reflexivity. Qed.
 
-(* a step that is not a string body: no deficit *)
+(* a step that is not a string body *)
 Definition leaf_exact (line : N) (cs : list chr) (t : token) (st' : sstate) : Prop :=
-  swallow_msg t = false /\ tline t = s_line st' /\ s_line st' + cnl (s_rest st') = line + cnl cs.
+  blind_msg t = false /\ tline t = s_line st' /\ s_line st' + cnl (s_rest st') = line + cnl cs.
 
 Ltac fin_leaf :=
   left; unfold leaf_exact; cbn [tline s_line s_rest fst snd];
@@ -443,8 +440,8 @@ Qed.
 Lemma scan_token_exact : forall st t st',
   scan_token st = (t, st') ->
   exists k, s_rest st = k ++ s_rest st' /\ s_pos st' = (s_pos st + clen k)%nat /\
-            tline t = s_line st' /\ s_line st' + sw t k = s_line st + cnl k /\
-            (swallow_msg t = true -> k <> []).
+            s_line st' = s_line st + cnl k /\ tline t + sw t k = s_line st' /\
+            (blind_msg t = true -> k <> []).
 Proof.
   intros st t st' H.
   destruct (scan_token_spec _ _ _ H) as [start [ws m Hr Hs Hp _ _ _ _]].
@@ -454,11 +451,10 @@ Proof.
   destruct (skip_ws_consumes _ _ _ _ _ _ _ Ews) as [ws0 [Hws0 _]].
   pose proof (scan_token_cases st cs start0 line Ews) as Hc. rewrite H in Hc. cbn [fst snd] in Hc.
   assert (Hk : cnl (s_rest st) = cnl (ws ++ m) + cnl (s_rest st')) by (rewrite Hr at 1; rewrite app_assoc, cnl_app; reflexivity).
-  destruct Hc as [[Hsw [Ht Hl]]|[c [r [Ecs [m0 [Hm0 [Ht [Hl Hne]]]]]]]].
-  - split; [exact Ht|]. split; [|rewrite Hsw; intros Q; discriminate Q].
+  destruct Hc as [[Hsw [Ht Hl]]|[c [r [Ecs [m0 [Hm0 [Hl [Ht Hne]]]]]]]].
+  - split; [lia|]. split; [|rewrite Hsw; intros Q; discriminate Q].
     unfold sw. rewrite Hsw. cbn [andb]. lia.
-  - split; [exact Ht|].
-    (* ws ++ m = ws0 ++ c :: m0 *)
+  - (* ws ++ m = ws0 ++ c :: m0 *)
     assert (Ek : ws ++ m = ws0 ++ c :: m0).
     { apply (app_inv_tail (s_rest st')). rewrite <- app_assoc, <- Hr, Hws0, Ecs, Hm0, <- app_assoc. reflexivity. }
     rewrite Ek. rewrite Ek in Hk.
@@ -466,11 +462,11 @@ Proof.
     rewrite cnl_app, cnl_cons, Hcn in *.
     assert (Hcs : cnl cs = cnl m0 + cnl (s_rest st')) by (rewrite Ecs, cnl_cons, Hcn, Hm0, cnl_app; lia).
     assert (Hrs : cnl (s_rest st) = cnl ws0 + cnl cs) by (rewrite Hws0, cnl_app; reflexivity).
-    split; [|intros _; destruct ws0; discriminate].
+    split; [lia|]. split; [|intros _; destruct ws0; discriminate].
     assert (Hsw : sw t (ws0 ++ c :: m0) = sw t m0).
-    { unfold sw. destruct (swallow_msg t) eqn:Es; [|reflexivity]. cbn [andb].
+    { unfold sw. destruct (blind_msg t) eqn:Es; [|reflexivity]. cbn [andb].
       rewrite last_nl_app by discriminate. rewrite last_nl_cons; [reflexivity|apply Hne; reflexivity]. }
-    rewrite Hsw. lia.
+    rewrite Hsw. exact Ht.
 Qed.
 
 (* ------------------------------------------------------------------ *)
@@ -485,12 +481,18 @@ Qed.
 Theorem scan_ends_tokens : forall src, map fst (scan_ends src) = scan_all src.
 Proof. intros src. apply scan_loop_ends_tokens. Qed.
 
-Lemma swallowed_cons : forall src te l,
-  swallowed src (te :: l) = (if swallowb src te then 1 else 0) + swallowed src l.
-Proof. intros src te l. unfold swallowed. cbn [filter]. destruct (swallowb src te); cbn [List.length]; lia. Qed.
-
 Lemma Forall_app_l : forall {A} (P : A -> Prop) a b, Forall P (a ++ b) -> Forall P a.
 Proof. intros A P a b H. apply Forall_app in H. tauto. Qed.
+
+(* the line of the end of a run of characters of src *)
+Lemma line_of_offset_prefix : forall src pre rest, nl_cleanb src = true ->
+  chars_of src = pre ++ rest -> line_of_offset src (clen pre) = 1 + cnl pre.
+Proof.
+  intros src pre rest Hcl Hc. unfold line_of_offset.
+  rewrite <- (chars_of_concat_id src) at 1. rewrite Hc, firstn_clen_concat.
+  rewrite <- cnl_count_clean; [reflexivity|].
+  pose proof (nl_clean_chars src Hcl) as Cl. rewrite Hc in Cl. apply Forall_app_l in Cl. exact Cl.
+Qed.
 
 (* one step from a state that sits at the end of the characters `pre` of src *)
 Lemma step_exact_full : forall src st pre t st',
@@ -498,78 +500,89 @@ Lemma step_exact_full : forall src st pre t st',
   chars_of src = pre ++ s_rest st -> s_pos st = clen pre ->
   scan_token st = (t, st') ->
   exists k, chars_of src = (pre ++ k) ++ s_rest st' /\ s_pos st' = clen (pre ++ k) /\
-            tline t = s_line st' /\
-            s_line st' + (if swallowb src (t, s_pos st') then 1 else 0) = s_line st + cnl k /\
-            line_of_offset src (s_pos st') = 1 + cnl (pre ++ k).
+            s_line st' = s_line st + cnl k /\
+            tline t + (if late_breakb src (t, s_pos st') then 1 else 0) = s_line st'.
 Proof.
   intros src st pre t st' Hcl Hc Hp H.
-  destruct (scan_token_exact _ _ _ H) as [k [Hk [Hpk [Ht [Hl Hne]]]]].
+  destruct (scan_token_exact _ _ _ H) as [k [Hk [Hpk [Hl [Ht Hne]]]]].
   exists k.
   assert (Hc' : chars_of src = (pre ++ k) ++ s_rest st') by (rewrite Hc, Hk, app_assoc; reflexivity).
   assert (Hp' : s_pos st' = clen (pre ++ k)) by (rewrite clen_app; lia).
-  split; [exact Hc'|]. split; [exact Hp'|]. split; [exact Ht|].
+  split; [exact Hc'|]. split; [exact Hp'|]. split; [exact Hl|].
   assert (Hsrc : src = List.concat (pre ++ k) ++ List.concat (s_rest st')).
   { rewrite <- (chars_of_concat_id src) at 1. rewrite Hc', concat_app. reflexivity. }
-  split.
-  - (* the swallow flag, read off the source *)
-    assert (Hflag : (if swallowb src (t, s_pos st') then 1 else 0) = sw t k).
-    { unfold swallowb, sw. cbn [fst snd]. destruct (swallow_msg t) eqn:Es; [|reflexivity]. cbn [andb].
-      specialize (Hne eq_refl).
-      assert (Hsh : Forall chr_shaped k).
-      { pose proof (chars_of_shaped src) as Sh. rewrite Hc' in Sh. apply Forall_app_l in Sh.
-        apply Forall_app in Sh. tauto. }
-      pose proof (last_byte_nl k (List.concat pre) (List.concat (s_rest st')) Hsh Hne) as Hb.
-      replace (List.concat pre ++ List.concat k ++ List.concat (s_rest st')) with src in Hb
-        by (rewrite Hsrc at 1; rewrite concat_app, <- app_assoc; reflexivity).
-      replace (List.length (List.concat pre) + clen k)%nat with (s_pos st') in Hb
-        by (rewrite Hpk, Hp; reflexivity).
-      rewrite Hb. reflexivity. }
-    rewrite Hflag. exact Hl.
-  - unfold line_of_offset. rewrite Hp'. rewrite Hsrc at 1.
-    rewrite <- concat_app, firstn_clen_concat.
-    rewrite <- cnl_count_clean; [reflexivity|].
-    pose proof (nl_clean_chars src Hcl) as Cl. rewrite Hc' in Cl. apply Forall_app_l in Cl. exact Cl.
+  (* the flag, read off the source *)
+  assert (Hflag : (if late_breakb src (t, s_pos st') then 1 else 0) = sw t k).
+  { unfold late_breakb, sw. cbn [fst snd]. destruct (blind_msg t) eqn:Es; [|reflexivity]. cbn [andb].
+    specialize (Hne eq_refl).
+    assert (Hsh : Forall chr_shaped k).
+    { pose proof (chars_of_shaped src) as Sh. rewrite Hc' in Sh. apply Forall_app_l in Sh.
+      apply Forall_app in Sh. tauto. }
+    pose proof (last_byte_nl k (List.concat pre) (List.concat (s_rest st')) Hsh Hne) as Hb.
+    replace (List.concat pre ++ List.concat k ++ List.concat (s_rest st')) with src in Hb
+      by (rewrite Hsrc at 1; rewrite concat_app, <- app_assoc; reflexivity).
+    replace (List.length (List.concat pre) + clen k)%nat with (s_pos st') in Hb
+      by (rewrite Hpk, Hp; reflexivity).
+    rewrite Hb. reflexivity. }
+  rewrite Hflag. exact Ht.
 Qed.
+
+(* THE STATE INVARIANT: the line counter is a function of the offset *)
+Theorem scanner_line_exact : forall src st, nl_cleanb src = true ->
+  reachable src st -> s_line st = line_of_offset src (s_pos st).
+Proof.
+  intros src st Hcl R.
+  assert (I : exists pre, chars_of src = pre ++ s_rest st /\ s_pos st = clen pre /\ s_line st = 1 + cnl pre).
+  { induction R as [|st t st' R IH H].
+    - exists []. repeat split.
+    - destruct IH as [pre [Hc [Hp Hl]]].
+      destruct (step_exact_full src st pre t st' Hcl Hc Hp H) as [k [Hc' [Hp' [Hl' _]]]].
+      exists (pre ++ k). split; [exact Hc'|]. split; [exact Hp'|]. rewrite cnl_app. lia. }
+  destruct I as [pre [Hc [Hp Hl]]]. rewrite Hp, (line_of_offset_prefix src pre _ Hcl Hc). exact Hl.
+Qed.
+Print Assumptions scanner_line_exact.
 
 Lemma scan_loop_ends_exact : forall src, nl_cleanb src = true ->
-  forall fuel st pre D,
-  chars_of src = pre ++ s_rest st -> s_pos st = clen pre -> s_line st + D = 1 + cnl pre ->
-  forall l1 t e l2, scan_loop_ends fuel st = l1 ++ (t, e) :: l2 ->
-    tline t + D + swallowed src (l1 ++ [(t, e)]) = line_of_offset src e.
+  forall fuel st pre,
+  chars_of src = pre ++ s_rest st -> s_pos st = clen pre -> s_line st = 1 + cnl pre ->
+  forall t e, In (t, e) (scan_loop_ends fuel st) ->
+    tline t + (if late_breakb src (t, e) then 1 else 0) = line_of_offset src e.
 Proof.
-  intros src Hcl. induction fuel as [|f IH]; intros st pre D Hc Hp HD l1 t e l2 H.
-  - destruct l1; discriminate H.
-  - cbn [scan_loop_ends] in H. destruct (scan_token st) as [t0 st'] eqn:E.
-    destruct (step_exact_full src st pre t0 st' Hcl Hc Hp E) as [k [Hc' [Hp' [Ht [Hl Hlo]]]]].
-    rewrite cnl_app in Hlo.
-    assert (Hhead : forall rest, l1 ++ (t, e) :: l2 = (t0, s_pos st') :: rest ->
-              (l1 = [] /\ t = t0 /\ e = s_pos st') \/ (exists l1', l1 = (t0, s_pos st') :: l1' /\ rest = l1' ++ (t, e) :: l2)).
-    { intros rest Q. destruct l1 as [|x l1']; cbn in Q; inversion Q; subst; [left; auto|right; eauto]. }
-    assert (Hfirst : l1 = [] -> t = t0 -> e = s_pos st' ->
-              tline t + D + swallowed src (l1 ++ [(t, e)]) = line_of_offset src e).
-    { intros -> -> ->. cbn [app]. rewrite swallowed_cons. unfold swallowed at 1. cbn [filter List.length]. lia. }
-    destruct (tk t0) eqn:Ek;
-      try (destruct (Hhead _ (eq_sym H)) as [[Q1 [Q2 Q3]]|[l1' [Q1 Q2]]];
-           [exact (Hfirst Q1 Q2 Q3)|
-            subst l1; cbn [app]; rewrite swallowed_cons;
-            specialize (IH st' (pre ++ k) (D + (if swallowb src (t0, s_pos st') then 1 else 0)) Hc' Hp');
-            rewrite cnl_app in IH;
-            assert (HD' : s_line st' + (D + (if swallowb src (t0, s_pos st') then 1 else 0)) = 1 + (cnl pre + cnl k)) by lia;
-            specialize (IH HD' l1' t e l2 Q2); lia]).
-    (* Eof: the list ends here *)
-    destruct (Hhead _ (eq_sym H)) as [[Q1 [Q2 Q3]]|[l1' [Q1 Q2]]]; [exact (Hfirst Q1 Q2 Q3)|].
-    destruct l1'; discriminate Q2.
+  intros src Hcl. induction fuel as [|f IH]; intros st pre Hc Hp HL t e Hin; [contradiction|].
+  cbn [scan_loop_ends] in Hin. destruct (scan_token st) as [t0 st'] eqn:E.
+  destruct (step_exact_full src st pre t0 st' Hcl Hc Hp E) as [k [Hc' [Hp' [Hl Ht]]]].
+  assert (HL' : s_line st' = 1 + cnl (pre ++ k)) by (rewrite cnl_app; lia).
+  assert (Hhead : tline t0 + (if late_breakb src (t0, s_pos st') then 1 else 0) = line_of_offset src (s_pos st')).
+  { rewrite Ht, Hp', (line_of_offset_prefix src (pre ++ k) _ Hcl Hc'). exact HL'. }
+  destruct (tk t0);
+    try (destruct Hin as [Q|Hin]; [inversion Q; subst; exact Hhead|exact (IH st' (pre ++ k) Hc' Hp' HL' t e Hin)]).
+  destruct Hin as [Q|[]]. inversion Q; subst. exact Hhead.
 Qed.
 
-(** THE LINE THEOREM.  e = `current` after the token was made. *)
-Theorem token_line_exact : forall src, nl_cleanb src = true ->
-  forall l1 t e l2, scan_ends src = l1 ++ (t, e) :: l2 ->
-    tline t + swallowed src (l1 ++ [(t, e)]) = line_of_offset src e.
+Lemma line_of_offset_after_nl : forall src e, byte_before_is_nl src e = true ->
+  line_of_offset src e = line_of_offset src (e - 1) + 1.
 Proof.
-  intros src Hcl l1 t e l2 H.
-  pose proof (scan_loop_ends_exact src Hcl (List.length src + 2) (init_sstate src) [] 0 eq_refl eq_refl eq_refl
-                l1 t e l2 H) as Q.
-  lia.
+  intros src [|p] H; [discriminate H|]. cbn [byte_before_is_nl] in H.
+  destruct (nth_error src p) as [b|] eqn:En; [|discriminate H].
+  replace (S p - 1)%nat with p by lia. unfold line_of_offset.
+  destruct (nth_error_split _ _ En) as [a [r [Hs Hl]]]. subst src p.
+  replace (S (List.length a)) with (List.length (a ++ [b])) by (rewrite app_length; cbn; lia).
+  replace (a ++ b :: r) with ((a ++ [b]) ++ r) by (rewrite <- app_assoc; reflexivity).
+  rewrite firstn_app, Nat.sub_diag, firstn_all. cbn [firstn]. rewrite app_nil_r.
+  rewrite <- app_assoc. cbn [app]. rewrite firstn_app, Nat.sub_diag, firstn_all. cbn [firstn]. rewrite app_nil_r.
+  rewrite count_nl_app. unfold count_nl at 2. cbn [filter]. rewrite H. cbn [List.length]. lia.
+Qed.
+
+(** THE LINE THEOREM, unconditional: e = `current` after the token was made; token_offset = e, except e - 1 (the line
+    break itself) for a blind-character Error token that ends with a line break. *)
+Theorem token_line_exact : forall src, nl_cleanb src = true ->
+  forall t e, In (t, e) (scan_ends src) -> tline t = line_of_offset src (token_offset src (t, e)).
+Proof.
+  intros src Hcl t e Hin.
+  pose proof (scan_loop_ends_exact src Hcl (List.length src + 2) (init_sstate src) [] eq_refl eq_refl eq_refl t e Hin) as Q.
+  unfold token_offset. cbn [snd]. destruct (late_breakb src (t, e)) eqn:Es; [|lia].
+  unfold late_breakb in Es. cbn [fst snd] in Es. apply andb_prop in Es as [_ Hb].
+  rewrite (line_of_offset_after_nl src e Hb) in Q. lia.
 Qed.
 Print Assumptions token_line_exact.
 
@@ -611,114 +624,48 @@ Print Assumptions valid_nl_clean.
 (* ------------------------------------------------------------------ *)
 (** * 5. corollaries *)
 
-Lemma swallowed_app : forall src a b, swallowed src (a ++ b) = swallowed src a + swallowed src b.
-Proof. intros. unfold swallowed. rewrite filter_app, app_length. lia. Qed.
-
-Lemma swallowed_none : forall src l, Forall (fun te => swallow_msg (fst te) = false) l -> swallowed src l = 0.
+Lemma not_error_not_blind : forall t, tk t <> TError -> blind_msg t = false.
 Proof.
-  intros src l F. induction F as [|te l H F IH]; [reflexivity|].
-  rewrite swallowed_cons, IH. unfold swallowb. rewrite H. reflexivity.
+  intros t H. unfold blind_msg. destruct (tk t); try reflexivity. contradiction H; reflexivity.
 Qed.
 
-Lemma not_error_not_swallow : forall t, tk t <> TError -> swallow_msg t = false.
-Proof.
-  intros t H. unfold swallow_msg. destruct (tk t); try reflexivity. contradiction H; reflexivity.
-Qed.
-
-(* (a) a token with no swallowing error token up to and including itself *)
-Theorem token_line_exact_clean : forall src, nl_cleanb src = true ->
-  forall l1 t e l2, scan_ends src = l1 ++ (t, e) :: l2 ->
-    swallowed src (l1 ++ [(t, e)]) = 0 -> tline t = line_of_offset src e.
-Proof. intros src Hcl l1 t e l2 H Hz. pose proof (token_line_exact src Hcl l1 t e l2 H). lia. Qed.
-
-(* (b) every token that has no Error token before it - in particular the FIRST Error token, the one the compiler
-   reports: exact unless it is itself a swallowing error, which carries the line of its `\` / `$` *)
-Theorem token_line_exact_first_error : forall src, nl_cleanb src = true ->
-  forall l1 t e l2, scan_ends src = l1 ++ (t, e) :: l2 ->
-    Forall (fun te => tk (fst te) <> TError) l1 ->
-    tline t + (if swallowb src (t, e) then 1 else 0) = line_of_offset src e /\
+(* (a) the plain form: every token that is not a late-break Error token - in particular every token that is not an Error
+   token - carries the line of the offset where it ends *)
+Theorem token_line_exact_plain : forall src, nl_cleanb src = true ->
+  forall t e, In (t, e) (scan_ends src) ->
+    (late_breakb src (t, e) = false -> tline t = line_of_offset src e) /\
     (tk t <> TError -> tline t = line_of_offset src e).
 Proof.
-  intros src Hcl l1 t e l2 H F.
-  pose proof (token_line_exact src Hcl l1 t e l2 H) as Q.
-  rewrite swallowed_app, (swallowed_none src l1) in Q
-    by (eapply Forall_impl; [|exact F]; intros te Hte; apply not_error_not_swallow; exact Hte).
-  rewrite swallowed_cons in Q. unfold swallowed in Q at 1. cbn [filter List.length] in Q.
-  split; [lia|]. intros Hk. unfold swallowb in Q. cbn [fst] in Q. rewrite (not_error_not_swallow t Hk) in Q.
-  cbn [andb] in Q. lia.
+  intros src Hcl t e Hin. pose proof (token_line_exact src Hcl t e Hin) as Q. unfold token_offset in Q. cbn [snd] in Q.
+  assert (H1 : late_breakb src (t, e) = false -> tline t = line_of_offset src e) by (intros Hf; rewrite Hf in Q; exact Q).
+  split; [exact H1|]. intros Hk. apply H1. unfold late_breakb. cbn [fst]. rewrite (not_error_not_blind t Hk). reflexivity.
 Qed.
 
-(* (c) sources whose token list holds no swallowing error message (decidable on the tokens): every line exact *)
-Definition no_swallow_tokens (src : list byte) : bool := forallb (fun t => negb (swallow_msg t)) (scan_all src).
-
-Lemma no_swallow_tokens_none : forall src, no_swallow_tokens src = true ->
-  forall l, incl l (scan_ends src) -> swallowed src l = 0.
+(* (b) the Error clause: a blind-character Error token that ends with a line break carries the line of that break *)
+Theorem late_break_error_line : forall src, nl_cleanb src = true ->
+  forall t e, In (t, e) (scan_ends src) -> late_breakb src (t, e) = true ->
+    tline t = line_of_offset src (e - 1) /\ line_of_offset src e = tline t + 1.
 Proof.
-  intros src H l Hi. apply swallowed_none. apply Forall_forall. intros te Hin.
-  unfold no_swallow_tokens in H. rewrite forallb_forall in H.
-  apply negb_true_iff. apply H. rewrite <- scan_ends_tokens. apply in_map. apply Hi. exact Hin.
+  intros src Hcl t e Hin Hs. pose proof (token_line_exact src Hcl t e Hin) as Q. unfold token_offset in Q. cbn [snd] in Q.
+  rewrite Hs in Q. split; [exact Q|].
+  unfold late_breakb in Hs. cbn [fst snd] in Hs. apply andb_prop in Hs as [_ Hb].
+  rewrite (line_of_offset_after_nl src e Hb). lia.
 Qed.
 
-Theorem token_line_exact_all : forall src, nl_cleanb src = true -> no_swallow_tokens src = true ->
-  forall t e, In (t, e) (scan_ends src) -> tline t = line_of_offset src e.
-Proof.
-  intros src Hcl Hn t e Hin. apply in_split in Hin. destruct Hin as [l1 [l2 H]].
-  apply (token_line_exact_clean src Hcl l1 t e l2 H).
-  apply (no_swallow_tokens_none src Hn). intros x Hx. rewrite H.
-  apply in_app_or in Hx. apply in_or_app. destruct Hx as [Hx|[<-|[]]]; [left; exact Hx|right; left; reflexivity].
-Qed.
-
-(* (d) on the plain token list: every token's line is the line of an offset of the source, up to the number of
-   swallowing error tokens of the whole scan *)
+(* (c) on the plain token list *)
 Theorem token_line_exact_in : forall src, nl_cleanb src = true ->
   forall t, In t (scan_all src) ->
-  exists e, In (t, e) (scan_ends src) /\
-            tline t <= line_of_offset src e <= tline t + swallowed src (scan_ends src) /\
-            (no_swallow_tokens src = true -> tline t = line_of_offset src e).
+  exists e, In (t, e) (scan_ends src) /\ tline t = line_of_offset src (token_offset src (t, e)).
 Proof.
   intros src Hcl t Hin. rewrite <- scan_ends_tokens in Hin. apply in_map_iff in Hin.
   destruct Hin as [[t' e] [Ht Hin]]. cbn in Ht. subst t'. exists e. split; [exact Hin|].
-  destruct (in_split _ _ Hin) as [l1 [l2 H]].
-  pose proof (token_line_exact src Hcl l1 t e l2 H) as Q.
-  split.
-  - rewrite H. replace (l1 ++ (t, e) :: l2) with ((l1 ++ [(t, e)]) ++ l2) by (rewrite <- app_assoc; reflexivity).
-    rewrite swallowed_app. lia.
-  - intros Hn. apply (token_line_exact_all src Hcl Hn t e Hin).
+  exact (token_line_exact src Hcl t e Hin).
 Qed.
-Print Assumptions token_line_exact_first_error.
-Print Assumptions token_line_exact_all.
+Print Assumptions token_line_exact_plain.
+Print Assumptions late_break_error_line.
 Print Assumptions token_line_exact_in.
 
-(* (e) through the parser (ParserInv): the line of the first compile error is the line of a token of the source, hence
-   the line of the offset where that token ends - exactly, when the scan holds no swallowing error message *)
-Theorem compile_error_line_exact : forall src l a m,
-  nl_cleanb src = true ->
-  parse_source src = PErr l a m ->
-  exists t e, In (t, e) (scan_ends src) /\ l = tline t /\
-              l <= line_of_offset src e <= l + swallowed src (scan_ends src) /\
-              (no_swallow_tokens src = true -> l = line_of_offset src e).
-Proof.
-  intros src l a m Hcl H.
-  destruct (ParserInv.parse_error_line_from_token src l a m H) as [t [Hin ->]].
-  destruct (token_line_exact_in src Hcl t Hin) as [e [He [Hb Hx]]].
-  exists t, e. split; [exact He|]. split; [reflexivity|]. split; [exact Hb|exact Hx].
-Qed.
-Print Assumptions compile_error_line_exact.
-
-(* the same for a Rust String *)
-Corollary compile_error_line_exact_utf8 : forall src l a m,
-  valid_utf8 src = true -> no_swallow_tokens src = true ->
-  parse_source src = PErr l a m ->
-  exists t e, In (t, e) (scan_ends src) /\ l = tline t /\ l = line_of_offset src e.
-Proof.
-  intros src l a m V Hn H.
-  destruct (compile_error_line_exact src l a m (valid_nl_clean src V) H) as [t [e [Hin [Hl [_ Hx]]]]].
-  exists t, e. split; [exact Hin|]. split; [exact Hl|exact (Hx Hn)].
-Qed.
-Print Assumptions compile_error_line_exact_utf8.
-
-(* (f) the own clauses of the brief, made explicit.
-   Eof: the synthetic Eof token ends at the end of the source, so it carries the LAST line (minus the deficit). *)
+(* (d) the Eof clause: the synthetic Eof token ends at the end of the source, so it carries the LAST line *)
 Lemma scan_loop_ends_eof : forall src fuel st pre,
   chars_of src = pre ++ s_rest st -> s_pos st = clen pre ->
   forall t e, In (t, e) (scan_loop_ends fuel st) -> tk t = TEof -> e = List.length src.
@@ -739,149 +686,96 @@ Qed.
 
 Theorem eof_line_exact : forall src, nl_cleanb src = true ->
   forall t e, In (t, e) (scan_ends src) -> tk t = TEof ->
-    e = List.length src /\
-    tline t + swallowed src (scan_ends src) = 1 + N.of_nat (count_nl src).
+    e = List.length src /\ tline t = 1 + N.of_nat (count_nl src).
 Proof.
   intros src Hcl t e Hin Hk.
   assert (He : e = List.length src)
     by (exact (scan_loop_ends_eof src _ (init_sstate src) [] eq_refl eq_refl t e Hin Hk)).
   split; [exact He|].
-  (* the Eof token is the last element *)
-  destruct (in_split _ _ Hin) as [l1 [l2 H]].
-  assert (Hl2 : l2 = []).
-  { pose proof (scan_all_spec src) as [l [t' [Hs [Ht' [Fl _]]]]].
-    rewrite <- scan_ends_tokens, H, map_app in Hs. cbn [map fst] in Hs.
-    destruct l2 as [|x l2']; [reflexivity|]. exfalso.
-    (* t would be a non-last element of l ++ [t'], hence not Eof *)
-    assert (Hlen : List.length (map fst l1 ++ t :: map fst (x :: l2')) = List.length (l ++ [t'])) by (rewrite Hs; reflexivity).
-    assert (Hnth : nth_error (l ++ [t']) (List.length (map fst l1)) = Some t) by (rewrite <- Hs; apply nth_error_app_len).
-    rewrite !app_length in Hlen. cbn [List.length map] in Hlen.
-    rewrite nth_error_app1 in Hnth by lia.
-    apply nth_error_In in Hnth. rewrite Forall_forall in Fl. exact (Fl t Hnth Hk). }
-  subst l2. pose proof (token_line_exact src Hcl l1 t e [] H) as Q. rewrite H.
-  unfold line_of_offset in Q. rewrite He, firstn_all in Q. rewrite He. exact Q.
+  destruct (token_line_exact_plain src Hcl t e Hin) as [_ Q].
+  rewrite Q by (rewrite Hk; discriminate). unfold line_of_offset. rewrite He, firstn_all. reflexivity.
 Qed.
 Print Assumptions eof_line_exact.
 
-(* a swallowing Error token itself: it carries the line ON WHICH THE SWALLOWED BREAK STANDS (the line of its `\` / `$`
-   when they are adjacent) - one less than the line where its text ends *)
-Lemma line_of_offset_after_nl : forall src e, byte_before_is_nl src e = true ->
-  line_of_offset src e = line_of_offset src (e - 1) + 1.
-Proof.
-  intros src [|p] H; [discriminate H|]. cbn [byte_before_is_nl] in H.
-  destruct (nth_error src p) as [b|] eqn:En; [|discriminate H].
-  replace (S p - 1)%nat with p by lia. unfold line_of_offset.
-  destruct (nth_error_split _ _ En) as [a [r [Hs Hl]]]. subst src p.
-  replace (S (List.length a)) with (List.length (a ++ [b])) by (rewrite app_length; cbn; lia).
-  replace (a ++ b :: r) with ((a ++ [b]) ++ r) by (rewrite <- app_assoc; reflexivity).
-  rewrite firstn_app, Nat.sub_diag, firstn_all. cbn [firstn]. rewrite app_nil_r.
-  rewrite <- app_assoc. cbn [app]. rewrite firstn_app, Nat.sub_diag, firstn_all. cbn [firstn]. rewrite app_nil_r.
-  rewrite count_nl_app. unfold count_nl at 2. cbn [filter]. rewrite H. cbn [List.length]. lia.
-Qed.
-
-Theorem swallowing_error_line : forall src, nl_cleanb src = true ->
-  forall l1 t e l2, scan_ends src = l1 ++ (t, e) :: l2 ->
-    Forall (fun te => tk (fst te) <> TError) l1 -> swallowb src (t, e) = true ->
-    tline t = line_of_offset src (e - 1).
-Proof.
-  intros src Hcl l1 t e l2 H F Hs.
-  destruct (token_line_exact_first_error src Hcl l1 t e l2 H F) as [Q _]. rewrite Hs in Q.
-  unfold swallowb in Hs. cbn [fst snd] in Hs. apply andb_prop in Hs as [_ Hb].
-  rewrite (line_of_offset_after_nl src e Hb) in Q. lia.
-Qed.
-Print Assumptions swallowing_error_line.
-
-(* (e') UNCONDITIONALLY exact for the FIRST compile error: the parser stops at the first Error token (ParserInv,
-   instance C), so the token whose line is reported has no Error token before it - its line is the line of the offset
-   where it ends; the one exception is a swallowing Error token, reported on the line of the swallowed break *)
-Theorem compile_error_line_exact_first : forall src l a m,
+(* (e) through the parser (ParserInv): the line of the first compile error is the line of a token of the source, hence
+   the line of that token's offset; an error "at '<lexeme>'" or "at end" is reported at a token that is not an Error
+   token, so its offset is the end of that token *)
+Theorem compile_error_line_exact : forall src l a m,
   nl_cleanb src = true ->
   parse_source src = PErr l a m ->
-  exists l1 t e l2, scan_ends src = l1 ++ (t, e) :: l2 /\ Forall (fun te => tk (fst te) <> TError) l1 /\
-    l = tline t /\
-    l + (if swallowb src (t, e) then 1 else 0) = line_of_offset src e /\
-    (tk t <> TError -> l = line_of_offset src e) /\
-    (swallowb src (t, e) = true -> l = line_of_offset src (e - 1)).
+  exists t e, In (t, e) (scan_ends src) /\ l = tline t /\ l = line_of_offset src (token_offset src (t, e)).
 Proof.
   intros src l a m Hcl H.
-  destruct (ParserInv.parse_error_before_scan_error src l a m H) as [t [[pre [post [E F]]] Hl]].
-  rewrite <- scan_ends_tokens in E. apply map_eq_app in E. destruct E as [l1 [r [E [E1 E2]]]].
-  apply map_eq_cons in E2. destruct E2 as [[t' e] [l2 [Er [Et E3]]]]. cbn in Et. subst t' r.
-  assert (F1 : Forall (fun te => tk (fst te) <> TError) l1).
-  { rewrite <- E1 in F. rewrite Forall_map in F. exact F. }
-  exists l1, t, e, l2. split; [exact E|]. split; [exact F1|]. split; [symmetry; exact Hl|].
-  destruct (token_line_exact_first_error src Hcl l1 t e l2 E F1) as [Q1 Q2]. rewrite <- Hl.
-  split; [exact Q1|]. split; [exact Q2|].
-  intros Hs. exact (swallowing_error_line src Hcl l1 t e l2 E F1 Hs).
+  destruct (ParserInv.parse_error_line_from_token src l a m H) as [t [Hin ->]].
+  destruct (token_line_exact_in src Hcl t Hin) as [e [He Hx]].
+  exists t, e. split; [exact He|]. split; [reflexivity|exact Hx].
 Qed.
-Print Assumptions compile_error_line_exact_first.
+Print Assumptions compile_error_line_exact.
 
-Corollary compile_error_line_exact_first_utf8 : forall src l a m,
+(* the same for a Rust String *)
+Corollary compile_error_line_exact_utf8 : forall src l a m,
   valid_utf8 src = true ->
   parse_source src = PErr l a m ->
-  exists t e, In (t, e) (scan_ends src) /\ l = tline t /\
-    (if swallowb src (t, e) then l = line_of_offset src (e - 1) else l = line_of_offset src e).
+  exists t e, In (t, e) (scan_ends src) /\ l = tline t /\ l = line_of_offset src (token_offset src (t, e)).
+Proof. intros src l a m V H. exact (compile_error_line_exact src l a m (valid_nl_clean src V) H). Qed.
+Print Assumptions compile_error_line_exact_utf8.
+
+(* located errors ("Error at '<lexeme>'"): the quoted lexeme is a token that ENDS on the reported line *)
+Theorem compile_error_at_token_line : forall src l lex m,
+  nl_cleanb src = true ->
+  parse_source src = PErr l (AtToken lex) m ->
+  exists t e, In (t, e) (scan_ends src) /\ tsource t = lex /\ l = line_of_offset src e.
 Proof.
-  intros src l a m V H.
-  destruct (compile_error_line_exact_first src l a m (valid_nl_clean src V) H)
-    as [l1 [t [e [l2 [E [_ [Hl [Q [_ Hs]]]]]]]]].
-  exists t, e. split; [rewrite E; apply in_or_app; right; left; reflexivity|]. split; [exact Hl|].
-  destruct (swallowb src (t, e)); [apply Hs; reflexivity|lia].
+  intros src l lex m Hcl H.
+  pose proof (ParserInv.parse_error_at_token src l (AtToken lex) m H) as Q. cbn in Q.
+  destruct Q as [t [Hin [Hl [Hs [_ Hk]]]]].
+  rewrite <- scan_ends_tokens in Hin. apply in_map_iff in Hin. destruct Hin as [[t' e] [Ht Hin]]. cbn in Ht. subst t'.
+  exists t, e. split; [exact Hin|]. split; [exact Hs|].
+  destruct (token_line_exact_plain src Hcl t e Hin) as [_ P]. rewrite <- Hl. exact (P Hk).
 Qed.
-Print Assumptions compile_error_line_exact_first_utf8.
+Print Assumptions compile_error_at_token_line.
 
 (* ------------------------------------------------------------------ *)
 (** * 6. witnesses *)
 Definition lf : string := String (Ascii.ascii_of_nat 10) "".
 Local Open Scope string_scope.
 
-(* every token of a source satisfies the plain equation / the equation with the deficit *)
+(* every token of a source satisfies the equation *)
 Definition all_exactb (src : list byte) : bool :=
-  forallb (fun te => N.eqb (tline (fst te)) (line_of_offset src (snd te))) (scan_ends src).
+  forallb (fun te => N.eqb (tline (fst te)) (line_of_offset src (token_offset src te))) (scan_ends src).
 
-(* the witness of the repaired defect: a line break among the hex digits of an escape - now exact on every token
+(* the witness of the first repaired defect (914ba97): a line break among the hex digits of an escape
    (the Error token is on line 2, where the literal ends; `var = 2;` is on line 3) *)
 Example line_exact_escape_fixed :
   let src := bs ("var s = ""\x" ++ lf ++ "1"";" ++ lf ++ "var = 2;") in
-  valid_utf8 src = true /\ nl_cleanb src = true /\ no_swallow_tokens src = true /\ all_exactb src = true /\
-  map (fun te => (tkind_index (tk (fst te)), N.to_nat (tline (fst te)), snd te)) (scan_ends src) =
+  valid_utf8 src = true /\ nl_cleanb src = true /\ all_exactb src = true /\
+  map (fun te => (tkind_index (tk (fst te)), N.to_nat (tline (fst te)), token_offset src te)) (scan_ends src) =
     [(68, 1, 3); (43, 1, 5); (21, 1, 7); (70, 2, 14); (14, 2, 15); (68, 3, 19); (21, 3, 21); (46, 3, 23); (14, 3, 24);
      (71, 3, 24)]%nat /\
   parse_source src = PErr 2 AtNothing "Invalid hexadecimal sequence.".
 Proof. vm_compute. repeat split; reflexivity. Qed.
 
-(* the hypotheses of token_line_exact are satisfiable with a non-zero deficit, and the equation is tight *)
-Example line_exact_deficit_example :
+(* the witnesses of the second repaired defect (e81033c; quote = the double quote character):
+   var s = quote \ LF quote ; quote ; LF var = 2;   and the same with $ for \ .
+   The Error token keeps line 1 (its offset is 10, the line break itself, not 11), the later `=` is on line 3 -
+   before e81033c the model (and scanner.rs) gave line 2 for it. *)
+Example line_exact_backslash_fixed :
   let src := bs ("var s = ""\" ++ lf ++ """;"";" ++ lf ++ "var = 2;") in
-  nl_cleanb src = true /\ swallowed src (scan_ends src) = 1%N /\
-  forallb (fun te => N.eqb (tline (fst te) + 1) (line_of_offset src (snd te))) (skipn 3 (scan_ends src)) = true.
+  valid_utf8 src = true /\ all_exactb src = true /\
+  map (fun te => (tkind_index (tk (fst te)), N.to_nat (tline (fst te)), snd te, token_offset src te)) (scan_ends src) =
+    [(68, 1, 3, 3); (43, 1, 5, 5); (21, 1, 7, 7); (70, 1, 11, 10); (44, 2, 14, 14); (14, 2, 15, 15); (68, 3, 19, 19);
+     (21, 3, 21, 21); (46, 3, 23, 23); (14, 3, 24, 24); (71, 3, 24, 24)]%nat /\
+  parse_source src = PErr 1 AtNothing "Invalid escape sequence.".
 Proof. vm_compute. repeat split; reflexivity. Qed.
 
-(* REFUTED: "every non-Error token carries the line of the offset where it ends" - false of the faithful model and of
-   scanner.rs (2026-09-26, 914ba97): the character after `\` (not an escape letter) or after `$` (not `{`) is consumed
-   without being looked at; when it is a raw line break, every later token is one line short.
-   Witness (quote = the double quote character): var s = quote \ LF quote ; quote ; LF var = 2;
-   real binary: [line 1] Error: Invalid escape sequence. and then [line 2] Error at '=': Expected variable name.
-   although that = stands on line 3. *)
-Theorem line_exact_refuted_escape :
-  exists src l1 t e l2, valid_utf8 src = true /\ scan_ends src = (l1 ++ (t, e) :: l2)%list /\
-    tk t = TEqual /\ tline t = 2%N /\ line_of_offset src e = 3%N.
-Proof.
-  pose (src := bs ("var s = ""\" ++ lf ++ """;"";" ++ lf ++ "var = 2;")).
-  exists src, (firstn 7 (scan_ends src)), (fst (nth 7 (scan_ends src) (mkToken TEof 0 [], O))),
-         (snd (nth 7 (scan_ends src) (mkToken TEof 0 [], O))), (skipn 8 (scan_ends src)).
-  vm_compute. repeat split; reflexivity.
-Qed.
-
-Theorem line_exact_refuted_dollar :
-  exists src l1 t e l2, valid_utf8 src = true /\ scan_ends src = (l1 ++ (t, e) :: l2)%list /\
-    tk t = TEqual /\ tline t = 2%N /\ line_of_offset src e = 3%N.
-Proof.
-  pose (src := bs ("var s = ""$" ++ lf ++ """;"";" ++ lf ++ "var = 2;")).
-  exists src, (firstn 7 (scan_ends src)), (fst (nth 7 (scan_ends src) (mkToken TEof 0 [], O))),
-         (snd (nth 7 (scan_ends src) (mkToken TEof 0 [], O))), (skipn 8 (scan_ends src)).
-  vm_compute. repeat split; reflexivity.
-Qed.
+Example line_exact_dollar_fixed :
+  let src := bs ("var s = ""$" ++ lf ++ """;"";" ++ lf ++ "var = 2;") in
+  valid_utf8 src = true /\ all_exactb src = true /\
+  map (fun te => (tkind_index (tk (fst te)), N.to_nat (tline (fst te)), snd te, token_offset src te)) (scan_ends src) =
+    [(68, 1, 3, 3); (43, 1, 5, 5); (21, 1, 7, 7); (70, 1, 11, 10); (44, 2, 14, 14); (14, 2, 15, 15); (68, 3, 19, 19);
+     (21, 3, 21, 21); (46, 3, 23, 23); (14, 3, 24, 24); (71, 3, 24, 24)]%nat /\
+  parse_source src = PErr 1 AtNothing "Expected '{' in string interpolation.".
+Proof. vm_compute. repeat split; reflexivity. Qed.
 
 (* the side condition nl_cleanb matters only for byte strings that are not UTF-8 (not reachable from Rust): LF followed
    by a continuation byte is ONE character of chars_of and is not counted *)
@@ -890,6 +784,3 @@ Example nl_clean_needed :
   valid_utf8 src = false /\ nl_cleanb src = false /\
   map (fun te => (tline (fst te), line_of_offset src (snd te))) (scan_ends src) = [(1, 2); (1, 2); (1, 2)]%N.
 Proof. vm_compute. repeat split; reflexivity. Qed.
-Print Assumptions token_line_exact_clean.
-Print Assumptions line_exact_refuted_escape.
-Print Assumptions line_exact_refuted_dollar.
